@@ -103,7 +103,8 @@ func (gn *Geneve) DecodeFromBytes(data []byte, df gopacket.DecodeFeedback) error
 	}
 
 	for length > 0 {
-		opt, len, err := decodeGeneveOption(data[offset:], gn, df)
+		// options are confined to the options length of the header
+		opt, len, err := decodeGeneveOption(data[offset:8+int(gn.OptionsLength)], gn, df)
 		if err != nil {
 			return err
 		}
@@ -137,6 +138,9 @@ func (gn *Geneve) SerializeTo(b gopacket.SerializeBuffer, opts gopacket.Serializ
 		optionsLength += 4 + dataLen
 	}
 	if opts.FixLengths {
+		if optionsLength > 252 {
+			return fmt.Errorf("Geneve options take %d bytes, at most 252 fit the 6 bit length field", optionsLength)
+		}
 		gn.OptionsLength = uint8(optionsLength)
 	}
 
